@@ -8,7 +8,13 @@ _W8 = ("All harnesses run the real generic gmsol-model source instantiated at th
 CLAIMED = {
     "C04": dict(
         text=BOUNDED + _W8 +
-             "Quick tier (component level, each obligation on the function that establishes it): swap_impact_amount_with_cap equals an exact "
+             "Quick tier, whole action on a lean state: the real Swap::try_new + Swap::execute (long-token-in and short-token-in harnesses) with the liquidity "
+             "pool, the swap impact pools of both tokens, the impact factors (exponent 1.0), the amount and the long/short token prices symbolic (fees zero, "
+             "no open interest, no virtual inventory): on Ok the sum liquidity + swap-impact + claimable-fee of token-in grows by exactly the input amount, the "
+             "same sum of token-out shrinks by exactly the reported output, each pool moves by exactly the reported fee / impact amounts (incl. the case where "
+             "positive impact is capped by the token-out impact pool and the remainder is paid from the token-in impact pool -- cover witness), every other "
+             "field is unchanged; on Err the market is bit-identical and no mutable accessor was requested (atomicity). "
+             "Quick tier, components: swap_impact_amount_with_cap equals an exact "
              "integer reference for every u8 pool balance, side, price pair and i8 impact value (positive amount = floor(value/max price) capped by "
              "the impact pool balance, capped difference value exact, negative amount = ceil(|value|/min price), failure exactly on zero prices / "
              "unrepresentable intermediates); apply_swap_impact_value_with_cap moves exactly that amount out of / into exactly that side of the impact "
@@ -16,16 +22,14 @@ CLAIMED = {
              "up exactly (u8 with discount, u16 without); BaseMarketExt::checked_apply_delta with Delta::new_both_sides / new_one_side / "
              "PoolExt::apply_delta_amount adds each signed delta to exactly the named side of the liquidity pool and of the virtual inventory, or "
              "fails without a result (u8, u16). "
-             "Thorough tier (whole action): Swap::try_new + Swap::execute end to end on an ALL-symbolic u8 market (every pool, limit, factor, open "
-             "interest, virtual inventory absent/present, fees with discount, impact factors, side, amount, six prices; impact exponent 0 or 1.0): on Ok "
-             "the sum liquidity + swap-impact + claimable-fee of token-in grows by exactly the input amount, the same sum of token-out shrinks by exactly "
-             "the reported output, each of the three pools moves by exactly the reported fee / impact amounts, the virtual inventory follows the liquidity "
-             "pool, and every other field of the market is unchanged; on Err the whole market is bit-identical and no mutable accessor was requested "
-             "(atomicity). A cheaper whole-swap harness on a lean state (no open interest, no virtual inventory) decides the same clauses.",
+             "Thorough tier: the same whole-action clauses on an ALL-symbolic u8 market (every pool, limit, factor, open "
+             "interest, virtual inventory absent/present, fees with discount, impact factors, side, amount, six prices; impact exponent 0 or 1.0), and on a "
+             "lean state with symbolic fees.",
         note="Trusted: kani-compiler + CBMC/CaDiCaL; the VMarket environment (accessors return fields; VPool::checked_apply_delta is checked add/sub). "
-             "The conservation and atomicity clauses of the whole action are decided only in the thorough tier (one run is 30-50 min, 10 GB): the quick tier "
-             "does not execute Swap::try_execute, so a defect in its glue code is seen by the thorough tier only (hand mutations there: price pick flipped, "
-             "liquidity delta side flipped, pool fee not booked, validation moved after the first write -- all four refuted by the lean whole-swap harness). "
+             "Cost: one whole Swap::execute is ~4.4 M SSA steps in CBMC whatever is concrete, so the two quick whole-swap harnesses take 24-32 min each (10.5 GB each) "
+             "on the loaded build machine and carry timeout=2700; the all-symbolic thorough run takes 45-50 min. Hand mutations of Swap::try_execute/execute refuted by these "
+             "harnesses: price pick flipped, liquidity delta side flipped, pool fee not booked, validation moved after the first write, capped remainder not deducted from "
+             "the input-side impact pool. "
              "Bounds: 8-bit instantiation (16-bit for two components); impact exponents other than 0 and 1.0 and the u64/u128 MulDiv impls are outside the claim; "
              "'reachable by deposits, withdrawals and swaps' is over-approximated by ALL states (one step from any state). The u16 instance of the cap harness "
              "does not finish (tier=experimental).",
@@ -34,13 +38,15 @@ CLAIMED = {
     "C05": dict(
         text=BOUNDED + _W8 +
              "Quick tier: swap_impact_amount_with_cap (the function that bounds the funded positive impact) equals its exact integer reference for every u8/i8 "
-             "input: paid amount <= impact pool balance, amount*max_price + capped difference <= impact value, negative impact rounded against the user. "
+             "input: paid amount <= impact pool balance, amount*max_price + capped difference <= impact value, negative impact rounded against the user; and the "
+             "whole Swap::execute on the lean state of C04's quick harnesses (liquidity pool, both impact pools, impact factors, side, amount, token prices symbolic; "
+             "zero fees) satisfies the value bound and the exact output formula below. "
              "Thorough tier: whole Swap::execute on an all-symbolic u8 market (same bounds as C04): on Ok, out*price_out.max <= in*price_in.min + "
              "(impact-pool decrease valued at the prices the code uses), exact in 32-bit integers; moreover out == floor((in - fees [+ amount taken from the "
              "token-in impact pool | - negative impact amount]) * price_in.min / price_out.max) [+ positive impact amount], fees <= in, and with zero fee and zero "
              "impact out == floor(in*price_in.min/price_out.max).",
-        note="Trusted: kani-compiler + CBMC/CaDiCaL; VMarket environment. The value bound itself is decided only by the thorough tier (whole action, 30-50 min, 10 GB); the quick "
-             "tier decides the component the bound rests on. 'Funded positive impact' is read off the two swap-impact pools: what leaves the token-out pool at price_out.max plus, "
+        note="Trusted: kani-compiler + CBMC/CaDiCaL; VMarket environment. The quick whole-swap harness takes ~25-30 min (10.5 GB, timeout=2700), the all-symbolic thorough one 45-50 min. "
+             "'Funded positive impact' is read off the two swap-impact pools: what leaves the token-out pool at price_out.max plus, "
              "when that pool caps the payment, what leaves the token-in pool at price_in.min. 8-bit instantiation; impact exponent 0 or 1.0; u64/u128 MulDiv impls outside the claim.",
         technique="Kani/CBMC symbolic execution of the real swap code at 8-bit width with exact wider-integer oracles",
         design="C04"),
